@@ -2,13 +2,13 @@
    Model: model/TracerQ.v (PathTracer.parametric's sample count and PathTracer._filter_segments of
    geometry/tracer.py, on the list of distances between consecutive samples, exact rationals).
    "Length" below is travelled length along the sampled polyline -- what the mechanism controls; the
-   chord between the two kept vertices is never longer, and for a circle of radius r a travelled
-   length s has chord 2 r sin(s / 2r) (checked on the implementation by the harness oracle).
+   chord between the two kept vertices is never longer, and for a circle of radius r an arc of
+   length s has chord 2 r sin(s / 2r): C12_chord / C12_sagitta bound chord and chord error from s.
    PARTIAL: the theorems are about the exact-rational model of the filter; the implementation runs it
    in binary64 (tied by the correspondence on dyadic inputs, where binary64 is exact); the halving
    clause is proved under an explicit hypothesis on the two sampled polylines (C12_halving). *)
-From Coq Require Import ZArith QArith Qround Bool List.
-From GS Require Import model.TracerQ proofs.TracerQProofs.
+From Coq Require Import ZArith QArith Qround Bool List Reals.
+From GS Require Import model.TracerQ proofs.TracerQProofs proofs.ChordProofs.
 Import ListNotations.
 Open Scope Q_scope.
 
@@ -55,6 +55,16 @@ Theorem C12_halving : forall res dmax2 ds1 ds2, 0 < res -> 0 <= dmax2 ->
   (length (segments res ds1) <= length (segments (res / 2) ds2))%nat.
 Proof. exact halving_never_fewer. Qed.
 Print Assumptions C12_halving.
+
+(* from travelled (arc) length to chord length and chord error, on a circle of radius r (real numbers; standard-library
+   axioms of the reals, see Print Assumptions): a segment spanning arc length s <= 2 r has chord between
+   s (1 - s^2 / 24 r^2) and s, and its chord error (sagitta) is at most s^2 / 8 r *)
+Theorem C12_chord : forall r s : R, (0 < r)%R -> (0 <= s <= 2 * r)%R ->
+  (s * (1 - s ^ 2 / (24 * r ^ 2)) <= 2 * r * sin (s / (2 * r)) <= s)%R.
+Proof. exact chord_bounds. Qed.
+Theorem C12_sagitta : forall r s : R, (0 < r)%R -> (0 <= s <= 2 * r)%R -> (r * (1 - cos (s / (2 * r))) <= s ^ 2 / (8 * r))%R.
+Proof. exact sagitta_bound. Qed.
+Print Assumptions C12_chord.
 
 (* non-vacuity: 29 samples 1/10 apart at resolution 1, then 59 samples 1/20 apart at resolution 1/2 *)
 Example C12_nonvacuous :
